@@ -3,10 +3,13 @@ real code, generators and correspondence suites shared by C07 and C08.
 
 Ops:
   pcur.quoted <closeCode> <restHex> | pcur.repeat <charCode> <restHex> <max> | pcur.embedded <restHex>
-  pat.compile <time|date|offset> <patternHex> <culture>   -> ok <shape> | !invalidPattern | !<other exception>
+  pat.compile <type> <patternHex> <culture>   -> ok <shape> | !invalidPattern | !<other exception>
   pat.fmt  <type> <patternHex> <culture> <value fields…>   -> textHex | !dom | !<exception>
   pat.parse <type> <patternHex> <culture> <textHex>        -> ok fields… | fail | !dom | !<exception>
-culture = `inv` or `c:<hex>` (the culture record read from the code's _PyodaFormatInfo, U+001F-joined)."""
+  pat.calids | cu.names <culture>  (evaluated here on the code's data; pat.delim / pat.wf / cu.check are model-only)
+type = time | date | offset | datetime | datetime:<y>,<m>,<d>,<nod> (LocalDateTime with that ISO template value) |
+       annual | annual:<m>,<d> | duration | instant (InstantPattern; values as UTC date-time fields)
+culture = `inv` or `c:<hex>` (the culture record read from the code's _PyodaFormatInfo, U+001F-joined, 92 fields)."""
 from __future__ import annotations
 
 import c07
